@@ -26,6 +26,8 @@ static void c01_mutate_and_send(Buf *last, int started) {
 }
 static void c04_policy_rounds(Buf *b, int rounds);
 static void scen_c04(int histories, int rounds);
+static void scen_c12(int histories, int rounds, int thorough);
+#include "scen_c01_tour.h"
 static void scen_c01(int histories, int prefix, int stream) {
     g_gen_host_rng_ok = 1;
     Buf b = {0}, last = {0}; World w; memset(&w, 0, sizeof w);
@@ -33,6 +35,8 @@ static void scen_c01(int histories, int prefix, int stream) {
         /* a whole authorization history of C04 (HMAC, bound, salted sessions, XOR and AES parameter encryption, two-session commands,
            policy sessions) with every command and response framed */
         if (h % 4 == 1) { g_locality = 0; g_trace_x = 1; scen_c04(1, 24); g_trace_x = 0; }
+        /* and one in four an object history of C12 (primaries, children, Duplicate/Import, CreateLoaded, restarts, Clear, seed changes) */
+        if (h % 4 == 2) { g_locality = 0; g_trace_x = 1; scen_c12(1, 40, 0); g_trace_x = 0; }
         tr("hist %d profile=%d", h, h % 3); w_reset(&w); g_locality = 0;
         tpm2_fresh(h % 3 == 0 ? NULL : (h % 3 == 1 ? PROFILE_DEFAULT_V1 : PROFILE_CUSTOM));
         int started = 1;
@@ -45,6 +49,7 @@ static void scen_c01(int histories, int prefix, int stream) {
         if (h % 2 == 0) {   /* authorized histories (HMAC-protected policy sessions, a command that deletes the entity authorizing it) */
             g_trace_x = 1; c04_policy_rounds(&b, 40); g_trace_x = 0;
         }
+        if (h % 4 == 3 || (h % 4 == 0 && h > 0)) { g_trace_x = 1; c01_valid_tour(&b); g_trace_x = 0; }   /* commands no other scenario completes */
         for (int i = 0; i < prefix; i++) gen_op(&w, &b);
         for (int i = 0; i < stream; i++) {
             g_locality = chance(70) ? 0 : rnd(5);
